@@ -771,7 +771,30 @@ func isStructOkVar(info *types.Info, fd *ast.FuncDecl, e ast.Expr) bool {
 		}
 		if l := identOf(as.Lhs[1]); l != nil && objOf(info, l) == obj {
 			if ta, ok := as.Rhs[0].(*ast.TypeAssertExpr); ok && ta.Type != nil && strings.HasSuffix(es(ta.Type), "Struct") {
-				res = true
+				// the value tested is the analysed type of the field itself: not what a pointer (or any other node) leads to,
+				// which the generators would have to reach through that node (a promoted field of a nil embedded pointer
+				// cannot be assigned)
+				own := true
+				if xid := identOf(ta.X); xid != nil {
+					for _, d := range defsIn(info, fd, objOf(info, xid)) {
+						if _, isCall := ast.Unparen(d).(*ast.CallExpr); !isCall {
+							if did := identOf(d); did != nil {
+								for _, d2 := range defsIn(info, fd, objOf(info, did)) {
+									if _, isCall2 := ast.Unparen(d2).(*ast.CallExpr); !isCall2 {
+										own = false
+									}
+								}
+								continue
+							}
+							own = false
+						}
+					}
+				} else if _, isCall := ast.Unparen(ta.X).(*ast.CallExpr); !isCall {
+					own = false
+				}
+				if own {
+					res = true
+				}
 			}
 		}
 		return true
